@@ -52,7 +52,8 @@ enum OpKind {
    SWAP, REVERSE, REVERSE_SUB, SORT, SORT_SUB, ROTATE,
    ENSURE, ENSURE_SET, ENSURE_EXTRA, ENSURE_SHRINK, SHRINK, SHRINK_EXTRA, NORMALIZE,
    COPYCTOR, ASSIGN_Q_FROM_R, ASSIGN_R_FROM_Q, MOVE_Q_FROM_R, SWAPCONTENTS, SELFASSIGN, CLEAR, CLEAR_REL,
-   INDEXOF, LASTINDEXOF, EQUALS, REMOVEALL, REMOVEFIRST, REMOVELAST, ADDTAIL_IFNOT, GETWITHDEFAULT, INSERT_SORTED, REMOVE_SORTED_DUPS, STARTSENDS
+   INDEXOF, LASTINDEXOF, EQUALS, REMOVEALL, REMOVEFIRST, REMOVELAST, ADDTAIL_IFNOT, GETWITHDEFAULT, INSERT_SORTED, REMOVE_SORTED_DUPS, STARTSENDS,
+   INSERT_AT_SELFITEM   // InsertItemAt(idx, q[src]): the argument aliases an item of the queue itself
 };
 struct Op { OpKind k; int a; int b; const char * name; };
 
@@ -82,6 +83,7 @@ public:
       A(REMHEAD); A(REMTAIL); A(REMHEAD_RET); A(REMTAIL_RET); A(REMHEAD_DEF); A(REMTAIL_DEF);
       A(REMHEADMULTI, 0); A(REMHEADMULTI, 2); A(REMHEADMULTI, 99); A(REMTAILMULTI, 2); A(REMTAILMULTI, 99);
       for (int s = 0; s <= 4; s++) A(INSERT_AT, s);
+      for (int i = 0; i < 2; i++) for (int sr = 0; sr < 2; sr++) A(INSERT_AT_SELFITEM, i, sr);
       A(INSERTS_AT_Q, 1); A(INSERTS_AT_Q, 4); A(INSERTS_AT_ARR, 1); A(INSERTS_AT_ARR, 0); A(INSERTS_AT_SELF, 1);
       for (int s = 0; s <= 3; s++) A(REMOVE_AT, s);
       A(REMOVE_AT_RET, 1);
@@ -100,10 +102,11 @@ public:
          "Swap(0,last)", "Reverse", "Reverse(1,size-1)", "Sort", "Sort(1,size)", "Rotate",
          "EnsureSize", "EnsureSize(set)", "EnsureSize(size+2,extra=3)", "EnsureSize(size,allowShrink)", "ShrinkToFit", "ShrinkToFit(2)", "Normalize",
          "CopyCtor", "q=r", "r=q", "q=move(r)", "SwapContents(r)", "q=q", "Clear", "Clear(release)",
-         "IndexOf", "LastIndexOf", "q==r", "RemoveAllInstancesOf", "RemoveFirstInstanceOf", "RemoveLastInstanceOf", "AddTailIfNotAlreadyPresent", "GetWithDefault", "InsertItemAtSortedPosition", "RemoveSortedDuplicateItems", "StartsWith/EndsWith"};
+         "IndexOf", "LastIndexOf", "q==r", "RemoveAllInstancesOf", "RemoveFirstInstanceOf", "RemoveLastInstanceOf", "AddTailIfNotAlreadyPresent", "GetWithDefault", "InsertItemAtSortedPosition", "RemoveSortedDuplicateItems", "StartsWith/EndsWith", "InsertItemAt(q[src])"};
       Op o; o.k = k; o.a = a; o.b = b; o.name = kn[k]; ops.push_back(o);
       std::string n = kn[k];
       if (k == INSERT_AT || k == REMOVE_AT || k == REPLACE_AT || k == REMOVE_AT_RET || k == INSERTS_AT_Q || k == INSERTS_AT_ARR || k == INSERTS_AT_SELF) n += std::string("@") + SelName(a);
+      else if (k == INSERT_AT_SELFITEM) n += std::string(a ? "@mid-1" : "@mid") + (b ? "<-last" : "<-first");
       else if (k == ADDTAIL || k == ADDHEAD || k == REMHEADMULTI || k == REMTAILMULTI || k == ENSURE || k == ENSURE_SET || k == INDEXOF || k == LASTINDEXOF || k == REMOVEALL || k == REMOVEFIRST || k == REMOVELAST || k == ADDTAIL_IFNOT || k == INSERT_SORTED) n += verif::Fmt("(%d)", a);
       names.push_back(n);
    }
@@ -221,6 +224,10 @@ public:
       case ADDHEAD_SELF: { if (n == 0) return seqx::SEQX_DISABLED; status_t r = q.AddHeadMulti(q); Ref c = m; m.insert(m.begin(), c.begin(), c.end()); FAILIF(r.IsError(), "failed"); break; }
       case ADDTAIL_SELF_SUB: { if (n < 2) return seqx::SEQX_DISABLED; status_t r = q.AddTailMulti(q, 1, 1); m.push_back(Item(m[1])); FAILIF(r.IsError(), "failed"); break; }
       case ADDTAIL_SELFITEM: { if (n == 0) return seqx::SEQX_DISABLED; Item it = m[n / 2]; status_t r = q.AddTail(q[(uint32)(n / 2)]); m.push_back(it); FAILIF(r.IsError(), "failed"); break; }
+      case INSERT_AT_SELFITEM: {
+         if (n == 0) return seqx::SEQX_DISABLED;
+         const uint32 idx = (uint32)((o.a == 0) ? (n / 2) : ((n / 2) ? (n / 2 - 1) : 0)), src = (uint32)(o.b ? (n - 1) : 0);
+         Item it = m[src]; status_t r = q.InsertItemAt(idx, q[src]); m.insert(m.begin() + idx, it); FAILIF(r.IsError(), "failed"); break; }
       case ADDHEAD_SELFITEM: { if (n == 0) return seqx::SEQX_DISABLED; Item it = m[n / 2]; status_t r = q.AddHead(q[(uint32)(n / 2)]); m.push_front(it); FAILIF(r.IsError(), "failed"); break; }
       case ADDTAIL_SELFARR: {  // pointer into the queue's own storage (first contiguous run)
          if (n == 0) return seqx::SEQX_DISABLED; uint32 len = 0; const T * p = q.GetArrayPointer(0, len); if (!p || len == 0) return seqx::SEQX_DISABLED;
